@@ -58,6 +58,7 @@ type Behaviour struct {
 	ReplicaEnd   int             `json:"replica_end"`   // driver behaviours: a Replica(n) observation after the last driver step
 	ProbeAfter   bool            `json:"probe_after"`   // run ProbeMsgs after Steps (data family: a state is reached by replaying a path)
 	SkipValidate bool            `json:"skip_validate"` // edge cover: import a reachable state even if the genesis validators reject it
+	Fine         bool            `json:"fine"`          // market time domain with a sub-second part (names.go, fineSeed)
 	ExportEvery  int             `json:"export_every"`  // driver behaviours: an ExportImport observation after every k-th driver step
 	Probes       int             `json:"probes"`
 	ProbeMsgs    []M             `json:"probe_msgs"` // edge cover: these messages are tried on throw-away branches of the genesis state // after every step: this many driver messages tried on throw-away branches of the state
@@ -128,6 +129,10 @@ func (r *runner) observe(ob M) *State {
 
 func (r *runner) run() {
 	b := r.b
+	fineSeed = 0
+	if b.Fine && b.Family != "data" && b.Family != "intertx" {
+		fineSeed = 2*b.Seed + 1
+	}
 	if b.Unit == "" {
 		b.Unit = "1000000"
 	}
@@ -147,7 +152,7 @@ func (r *runner) run() {
 	var gi *GenesisInput
 	var gs string
 	if json.Unmarshal(b.Genesis, &gs) == nil {
-		gi = &GenesisInput{Ecocredit: r.app.DefaultEcoGenesis(), Data: r.app.DefaultDataGenesis(), Time: TickTime(6)}
+		gi = &GenesisInput{Ecocredit: r.app.DefaultEcoGenesis(), Data: r.app.DefaultDataGenesis(), Time: MarketTime(6)}
 	} else {
 		var st M
 		must(json.Unmarshal(b.Genesis, &st))
@@ -276,7 +281,7 @@ func (r *runner) step(m M) {
 				r.digests = append(r.digests, "block:"+closed)
 			}
 		}
-		bt := TickTime(int(num(m, "t")))
+		bt := MarketTime(int(num(m, "t")))
 		if r.b.Family == "intertx" {
 			// real block times have a sub-second part; the packet timeout is relative to the exact block time
 			bt = bt.Add(time.Duration((r.b.Seed*7919+int64(num(m, "t"))*104729)%1000000000) * time.Nanosecond)
@@ -378,7 +383,7 @@ func (r *runner) probes(st *State) {
 
 // probeBlock runs the module's begin-block hook at block time t on a throw-away branch.
 func (r *runner) probeBlock(m M, dom string) {
-	t := TickTime(int(num(m, "t")))
+	t := MarketTime(int(num(m, "t")))
 	ctx := r.app.Ctx()
 	cctx, _ := ctx.CacheContext()
 	hdr := r.app.header
